@@ -1182,8 +1182,8 @@ def rule_subcell_radius(chk):
     who = 'ExtendedSpatialHashNNPS._neighbor_boxes'
     M.set_parents(fn)
     defs_sr = N.local_defs(fn.body)
-    ceils = [c for c in M.calls(fn) if M.call_name(c) == 'ceil' and len(c.args) == 1 and isinstance(c.args[0], ast.BinOp) and isinstance(c.args[0].op, ast.Div)
-             and compact(N.inline(c.args[0].right, defs_sr)) == 'self.h_sub']
+    # the number of sub-cells to visit: the one ceil(..) of the method, however its argument is spelled (radius/h_sub, h*(radius_scale/h_sub) with the factor hoisted, ...)
+    ceils = [c for c in M.calls(fn) if M.call_name(c) == 'ceil' and len(c.args) == 1]
     if len(ceils) != 1:
         raise AnalysisError('%s: the `ceil(<radius>/self.h_sub)` computing the number of sub-cells to visit vanished' % who)
     st = ceils[0]
@@ -1192,19 +1192,23 @@ def rule_subcell_radius(chk):
     blk = st.parent.body if hasattr(st.parent, 'body') and st in st.parent.body else None
     if blk is None:
         raise AnalysisError('%s: cannot locate the block computing the sub-cell radius' % who)
-    pre = [x for x in blk[:blk.index(st)] if isinstance(x, (ast.Assign, ast.AnnAssign, ast.AugAssign))]
+    # single-assignment locals of the method body in front of the search loops (hoisted factors) and the assignments of the block in front of the ceil
+    outer = [x for x in fn.body if isinstance(x, (ast.Assign, ast.AnnAssign)) and x.lineno < st.lineno and getattr(x, 'value', None) is not None and
+             not any(isinstance(c_, ast.Call) and M.call_name(c_) in ('malloc', '__cast__') for c_ in ast.walk(x.value))]
+    pre = outer + [x for x in blk[:blk.index(st)] if isinstance(x, (ast.Assign, ast.AnnAssign, ast.AugAssign)) and not any(x is o_ for o_ in outer)]
     ctx = S.Ctx(seconds=20)
     ctx.positive.add('self.radius_scale')
+    ctx.positive.add('self.h_sub')
     try:
         ev = S.Evaluator(ctx, ast.FunctionDef(name='f', args=fn.args, body=pre, decorator_list=[]))
         ev.run()
-        got = ev.ev(ceils[0].args[0].left)
+        got = ctx.mul(ev.ev(ceils[0].args[0]), ctx.var('self.h_sub'))
         rs = ctx.var('self.radius_scale')
         want = ctx.mul(rs, ctx.fn('max', [ctx.var('cell.h_max'), ctx.var('h')]))
         ok = ctx.prove_zero(got - want)[0]
         chk.decide(ok, 'subcell-search-radius', 'ExtendedSpatialHashNNPS', node=st, file=rel, func=who,
-                   detail_bad='the number of sub-cells searched is ceil(%s / h_sub); it must be ceil(radius_scale*max(cell.h_max, h) / h_sub): with a smaller radius a query whose own '
-                              'h is the larger one misses sub-cells that hold neighbours within radius_scale*h' % compact(ceils[0].args[0].left),
+                   detail_bad='the number of sub-cells searched is ceil(%s); it must be ceil(radius_scale*max(cell.h_max, h) / h_sub): with a smaller radius a query whose own '
+                              'h is the larger one misses sub-cells that hold neighbours within radius_scale*h' % compact(N.inline(ceils[0].args[0], defs_sr)),
                    detail_ok='ceil(radius_scale*max(cell.h_max, h)/h_sub)')
     except (S.Unsupported, S.Budget) as e:
         chk.undecided('subcell-search-radius', 'ExtendedSpatialHashNNPS', node=st, file=rel, func=who, detail=str(e))
